@@ -8,13 +8,20 @@
      subscribed to the type or to all types (C01_exactly_once, C01_recipients_subscribed), the filter is the
      stated one (C01_dest_filter), the destination guards are the protocol's ranges (C01_valid_dest), an
      invalid destination delivers to nobody (C01_invalid_dest_nobody).
+   - C01_only_recipients (the safety half, UNCONDITIONAL: every reachable state, any nesting budget, whoever is not
+     writable, whatever sends fail, however deep the nested removals and notices go, Ok or Crash): every copy of a
+     published message (a header equal to the published one up to the stamped sequence number; the published header is
+     not of the manager's own form, h_extra <> 0) is written to a member of the recipient snapshot that passes the
+     destination filter - hence a registered, open subscriber of the type or of all types at that moment -, is
+     followed on that connection by exactly the published payload, at most ONE copy goes to any connection, and a
+     message with an out-of-range destination module or host is copied to nobody.
    - What happens to a recipient that is NOT writable or whose send fails is C14's subject
      (C01_deliver_decision is the three-way decision shared with it).
    The same statements are decided against the implementation by the model correspondence and the spec
    oracle of vlib/mgr_oracles.py (check_C01). *)
 From Coq Require Import ZArith List Bool Lia.
 From Mgr Require Import Gen.MgrDefs Model.Manager Proofs.RegInv Proofs.Frame Proofs.RegTraverse Proofs.RegTop
-                        Proofs.Connect Proofs.StepInv Proofs.Routing Proofs.OutInv Proofs.C05Inv Proofs.Exact Proofs.ExactTop.
+                        Proofs.Connect Proofs.StepInv Proofs.Routing Proofs.OutInv Proofs.C05Inv Proofs.Hoare Proofs.Exact Proofs.ExactTop Proofs.LoopExact Proofs.OnlyRecipients.
 Import ListNotations.
 Open Scope Z_scope.
 
@@ -119,3 +126,26 @@ Example C01_forward_exact_ex :
   | Crash _ _ => ([], false, [])
   end = ([1; 2; 3], true, [true; true; false]).
 Proof. vm_compute. reflexivity. Qed.
+
+(* ---- the safety half, unconditional ---- *)
+Theorem C01_only_recipients : forall cfg fuel es u s (k : nat) h p,
+  run cfg fuel es = Ok u s -> h_extra h <> 0 -> h_type h <> ALL_MESSAGE_TYPES ->
+  exists suf, out (st (forward cfg k h p s)) = out s ++ suf /\ OnlyRecipients h p s suf.
+Proof. exact only_recipients_reachable. Qed.
+
+Theorem C01_only_recipients_service : forall cfg fuel es u s FUEL c h ip,
+  run cfg fuel es = Ok u s -> data_type (h_type h) -> h_extra h <> 0 -> h_type h <> ALL_MESSAGE_TYPES ->
+  exists suf, out (st (service cfg FUEL c (IFrame h ip) s)) = out s ++ suf /\ OnlyRecipients h (data_payload h ip) s suf.
+Proof. exact service_only_recipients_reachable. Qed.
+
+(* OnlyRecipients spelled out *)
+Theorem C01_only_recipients_meaning : forall h p s suf, OnlyRecipients h p s suf ->
+  (forall c h', In (c, OHdr h') suf -> same_msg h h' ->
+      In c (snapshot s (h_type h)) /\ eligible (h_dst_mod h) s c = true /\ exists n, h' = set_count h n) /\
+  (forall a b c h' c2 q, suf = a ++ (c, OHdr h') :: (c2, OPay q) :: b -> same_msg h h' -> c2 = c /\ q = p) /\
+  (forall c, (length (filter (same_item h) (proj c suf)) <= 1)%nat) /\
+  (bad_dest h = true -> forall c h', In (c, OHdr h') suf -> ~ same_msg h h').
+Proof. intros h p s suf [A B C D]. auto. Qed.
+
+Definition C01_only_recipients_ex := only_recipients_ex.
+Definition C01_only_recipients_ex_invalid := only_recipients_ex_invalid.
